@@ -16,6 +16,7 @@ import Mrm.DriverAccess
 import Mrm.Spec.Classify
 import Mrm.DriverElements
 import Mrm.Model.Serialize
+import Mrm.DriverIo
 
 open Lean
 
@@ -162,6 +163,36 @@ def handle (j : Json) : Except String Json := do
     let d ← (j.getObjVal? "doc").bind xmlOfJson
     pure (Json.mkObj [("text", .str (serialize d)),
       ("root_tags", toJson (rootTags d)), ("tokens_roundtrip", .bool (parseTokens (tokens d) == some d))])
+  | "listkeys" => handleListKeys j
+  | "cli" =>
+    -- files: [[path, entry]] with entry = tree | "notxml" | "missing" | "directory"
+    let filesJ ← (j.getObjVal? "files").bind (·.getArr?)
+    let files ← filesJ.toList.mapM fun p => do
+      let q ← p.getArr?
+      match q.toList with
+      | [.str path, .str "notxml"] => pure (path, FsEntry.notXml)
+      | [.str path, .str "missing"] => pure (path, FsEntry.missing)
+      | [.str path, .str "directory"] => pure (path, FsEntry.directory)
+      | [.str path, t] => do pure (path, FsEntry.xml (← xmlOfJson t))
+      | _ => throw "cli file"
+    let fs : String → FsEntry := fun p => ((files.find? (fun q => q.1 == p)).map (·.2)).getD .missing
+    let paths := files.map (·.1)
+    let cmd ← (j.getObjVal? "cmd").bind (·.getStr?)
+    match cmd with
+    | "detect" =>
+      let r := cliDetect fs paths
+      pure (Json.mkObj [("lines", .arr (r.1.map out1J).toArray), ("status", toJson r.2)])
+    | "inspect" =>
+      let r := if paths.isEmpty then cliDetect fs paths else inspectLoop fs paths []
+      pure (Json.mkObj [("lines", .arr (r.1.map out1J).toArray), ("status", toJson r.2)])
+    | "merge" =>
+      let inc ← (j.getObjVal? "incomplete").bind (·.getBool?)
+      let ns ← (j.getObjVal? "non_strict").bind (·.getBool?)
+      let outfile := (j.getObjVal? "outfile").toOption.bind (fun v => v.getStr?.toOption)
+      let r := cliMerge fs paths outfile inc ns
+      pure (Json.mkObj [("status", toJson r.status), ("stdout", match r.stdout with | some s => .str s | none => .null),
+        ("written", match r.written with | some s => .str s | none => .null)])
+    | _ => throw "cli cmd"
   | "spaces" =>
     -- every scalar value the model treats as whitespace (the table behind `pyStrip`)
     let cps := (List.range 0x110000).filter (fun n => (n < 0xD800 || n > 0xDFFF) && pyIsSpace (Char.ofNat n))
